@@ -351,7 +351,9 @@ def createDevice (fetch : Str â†’ Fetch) (nonStrict : Bool) (base : Str) : Nat â
           .ok (.mk (parseInfo el) base icons (keyedValues (Â·.serviceType) (Â·.serviceId) svcs)
             (keyedValues DevM.deviceType DevM.udn emb))
 
-/-- `async_create_device` -/
+/-- `async_create_device`.  The factory keeps NO state between creations: the result is a function of
+    what the requester answers now (`fetch`) and of the options (`nonStrict`) only; the same `UpnpFactory`
+    creating again after a document changed must see the new document (the harness runs such histories) -/
 def asyncCreateDevice (fetch : Str â†’ Fetch) (nonStrict : Bool) (base : Str) (fuel : Nat) : Except FErr (DevM F) :=
   match fetch base with
   | .status _ => .error .response
